@@ -189,3 +189,8 @@ fn c14_4c_converges_in_17_rounds() {
     assert!(!s.is_probing(), "C14: the search converges within 17 probes");
     assert!(s.min_ss == t && s.max_ss == t, "C14: the search settles on the largest payload size that fits");
 }
+
+/// Accessor for the tier-C harnesses: a search state with the given interval and cool-down.
+pub fn verif_segment_sizes(min_ss: u16, max_ss: u16, cooldown_remaining: u16, cooldown_max: u16) -> SegmentSizes {
+    SegmentSizes { min_ss, max_ss, cooldown_remaining_packets: cooldown_remaining, cooldown_max_packets: cooldown_max }
+}
